@@ -360,6 +360,18 @@ class Interp:
             return self.call(fn.func, list(fn.args) + list(args), kw)
         # models first (live callables with a theory implementation)
         m = self.models.lookup(fn)
+        if m is None and isinstance(fn, functools._lru_cache_wrapper):
+            # a memoised function is STATE between calls: the call either computes, or returns what an earlier call computed for an
+            # argument that is EQUAL (== and hash) to this one - not necessarily the same object.  Nothing else is known about a hit.
+            name = getattr(fn, "__qualname__", getattr(fn, "__name__", "memoised function"))
+            plain = lambda a: a is None or isinstance(a, (str, int, float, bool, bytes, type)) or (isinstance(a, (tuple, frozenset)) and all(plain(x) for x in a))  # noqa: E731
+            if all(plain(a) for a in list(args) + list(kwargs.values())):
+                return fn(*args, **kwargs)  # plain values: equal means indistinguishable, the memo cannot be told from the function
+            if p.choose([("computes", None), ("returns_the_result_cached_for_an_equal_argument", None)], f"lru_cache({name})") == 0:
+                return self.call(fn.__wrapped__, list(args), kwargs)
+            r = SAny(name=f"result of {name} cached for an equal argument")
+            p.ghost.setdefault("memo_hits", []).append((fn, tuple(args), r))
+            return r
         if m is None and inspect.ismethod(fn):
             m = self.models.get(id(fn.__func__))
             if m is not None:
